@@ -191,16 +191,25 @@ crate::harnesses! { REG;
     /// thorough required timeout=3000 | dense MLE, 3 variables: evaluate / fix_variables, ALL tables and points
     #[unwind(12)]
     fn c17_dense_eval_fix_3() { dense_eval_fix::<3, 8>() }
-    /// quick required | dense MLE `&a + &b` on 2 variables: pointwise on ALL tables and points
+    /// thorough required timeout=2400 | dense MLE `&a + &b` on 2 variables: pointwise on ALL tables and points
     #[unwind(10)]
     fn c17_dense_add_2() { dense_arith1::<2, 4, 0>() }
-    /// quick required | dense MLE `&a - &b` on 2 variables: pointwise on ALL tables and points
+    /// thorough required timeout=2400 | dense MLE `&a - &b` on 2 variables: pointwise on ALL tables and points
     #[unwind(10)]
     fn c17_dense_sub_2() { dense_arith1::<2, 4, 1>() }
-    /// quick required | dense MLE neg and scalar * (non-zero scalar) on 2 variables: ALL tables, scalars, points
+    /// quick required | dense MLE `&a + &b` and `&a - &b` on 1 variable: pointwise on ALL tables and points
     #[unwind(10)]
-    fn c17_dense_neg_scale_2() { dense_arith1::<2, 4, 2>(); dense_arith1::<2, 4, 3>() }
-    /// quick required | dense MLE scaled add `a += (s, &b)` on 2 variables: ALL tables, scalars, points
+    fn c17_dense_add_sub_1() { dense_arith1::<1, 2, 0>(); dense_arith1::<1, 2, 1>() }
+    /// quick required | dense MLE scaled add `a += (s, &b)` on 1 variable: ALL tables, non-zero scalars, points
+    #[unwind(10)]
+    fn c17_dense_scaled_add_1() { dense_arith1::<1, 2, 4>() }
+    /// quick required | dense MLE neg on 2 variables: ALL tables, points
+    #[unwind(10)]
+    fn c17_dense_neg_2() { dense_arith1::<2, 4, 2>() }
+    /// thorough attempt timeout=3000 mem=30 | dense MLE scalar * (non-zero scalar) on 2 variables: ALL tables, scalars, points
+    #[unwind(10)]
+    fn c17_dense_scale_2() { dense_arith1::<2, 4, 3>() }
+    /// thorough required timeout=2400 | dense MLE scaled add `a += (s, &b)` on 2 variables: ALL tables, scalars, points
     #[unwind(10)]
     fn c17_dense_scaled_add_2() { dense_arith1::<2, 4, 4>() }
     /// thorough attempt timeout=3000 mem=30 | dense MLE arithmetic, all five operators in one harness, 2 variables
@@ -217,7 +226,7 @@ crate::harnesses! { REG;
         core::mem::forget((a, z, pv));
         assert!(ok);
     }
-    /// quick required | dense MLE relabel(a, b, k) on 2 variables for ALL admissible windows: equals evaluation at the point with the windows swapped
+    /// thorough required timeout=2400 | dense MLE relabel(a, b, k) on 2 variables for ALL admissible windows: equals evaluation at the point with the windows swapped
     #[unwind(10)]
     fn c17_dense_relabel_2() { dense_relabel::<2, 4>() }
     /// thorough required timeout=3000 | dense MLE relabel on 3 variables, ALL admissible (a, b, k)
